@@ -90,6 +90,21 @@ Proof. vm_compute. reflexivity. Qed.
 Lemma w_to_formula_trace : forallb (leaves_trace_flush w_ord w_doc w_to_formula) (seq 3 5) = true.
 Proof. vm_compute. reflexivity. Qed.
 
+(* ... likewise RenameColumn and RenameTable once rebuild_usercode has destroyed the old column / table objects *)
+Definition w_rename_column : list event := [EDoc (RenameColumn T A N)].
+Definition w_rename_table : list event := [EDoc (RenameTable T 5)].
+Lemma w_rename_trace :
+  leaves_trace_flush w_ord w_doc w_rename_column 3 = true /\ leaves_trace_flush w_ord w_doc w_rename_table 3 = true.
+Proof. vm_compute. split; reflexivity. Qed.
+(* while before rebuild_usercode (k = 2) every schema action is repaired by the snapshot, and AddColumn / AddTable
+   also after it (k = 3) *)
+Lemma w_snapshot_no_trace :
+  forallb (fun es => negb (leaves_trace_flush w_ord w_doc es 2))
+          [w_remove_column; w_rename_column; w_rename_table; w_to_formula] = true /\
+  leaves_trace_flush w_ord w_doc [EDoc (AddColumn T N ci_int)] 3 = false /\
+  leaves_trace_flush w_ord w_doc [EDoc (AddTable 5 [(A, ci_int)])] 3 = false.
+Proof. vm_compute. auto. Qed.
+
 (* (iv) schema action crashing after its undo append: restore + undo both revert it, the rollback raises and the
    earlier UpdateRecord stays applied *)
 Definition w_add_column : list event := [EDoc (UpdateRecord T 1 [(A, 10)]); EDoc (AddColumn T N ci_int)].
